@@ -104,7 +104,8 @@ def check_split(ctx, rule):
     # decided by folding the returned term on sample words (every shape of the first two characters, longer words included)
     from ..peval import fold, Unfoldable
     ssd_paths = paths_of(repo, f_ssd)
-    pname = f_ssd.params()[0]
+    from .common import cparams as _cparams
+    pname = _cparams(f_ssd)[0]
     bad = None
     nssd = 0
     for sample in ('', '-', '--', '-a', '--a', 'a', 'a-', '-ab', '---', '-a-', '-C', '--help', 'x-y'):
@@ -227,7 +228,8 @@ def run(ctx):
             if e.kind == 'call' and e.ftext in ('subprocess.Popen', 'subprocess.run', 'subprocess.call', 'subprocess.check_call', 'os.execvp', 'os.system') and e.args:
                 starts.setdefault(norm(e.args[0]) + '|' + ','.join(sorted(e.kwargs)), e)
     ctx.floor('C19.3', len(starts), 1, 'GDB start')
-    pa = f_gdb.params()[0]
+    from .common import cparams as _cparams2
+    pa = _cparams2(f_gdb)[0]
 
     def flat(b, parts):
         if isinstance(b, ast.BinOp) and isinstance(b.op, ast.Add):
@@ -319,7 +321,7 @@ def run(ctx):
         for opt in ('args.f', 'args.b'):
             suf = re.compile(r'\.parse_args\(.*\)\.%s$' % opt.split('.')[1])
             given = [v for a, v in p.decisions if suf.search(a.text)] + [not v for a, v in p.decisions if a.text.endswith(' is None') and suf.search(a.text[:-8])]
-            parsed = any(e.kind == 'call' and e.ftext == 'matcher.parse' and suf.search(e.argtext(0) or '') for e in p.events)
+            parsed = any(e.calls('matcher.parse') and suf.search(e.argtext(0) or '') for e in p.events)
             if parsed:
                 nparsed.add(opt)
             ctx.check(bool(given) and parsed == given[0], 'C19.4', 'matcher-option-parsed:%s' % opt, f_pa.loc(),
